@@ -283,6 +283,7 @@ func (s stringSet) without(k string) stringSet {
 }
 func (s stringSet) key() string { return strings.Join(s.ks, ";") }
 func (s stringSet) empty() bool { return len(s.ks) == 0 }
+func (s stringSet) list() []string { return s.ks }
 
 // ---------------------------------------------------------------------
 // helpers on conditions
